@@ -136,6 +136,19 @@ PROPS = {
         "assumptions": ["an informer cache holds one object per (apiVersion, kind, namespace, name)",
                         "the customize answers a related-object handler works from are read back from the manager's cache after the event"],
     },
+    "C18": {
+        "theorems": [("Mc.Props.C18", "Mc.C18." + t) for t in ["inv_init", "inv_step", "C18_invariant", "C18_refcount", "C18_fresh_start", "C18_share", "C18_close_not_last",
+                     "C18_close_last", "C18_replay_on_add", "C18_event_delivery", "C18_silent_after_remove", "C18_isolation"]],
+        "streams": [{"pkg": "pkg/dynamic/informer", "test": "TestVerifInformer", "shards": 16, "n_quick": 160, "n_thorough": 1600, "thorough_seeds": 2, "nontrivial": ["delivered"]}],
+        "nontrivial": ["delivered"],
+        "rule": "operation sequences (5-14 operations: subscribe, close, add handler with or without its own resync period, remove handlers, outside create/update/delete of an object) "
+                "over two resources executed on the real SharedInformerFactory against the simulated API server (real LIST/WATCH); after each operation the deliveries per handler, "
+                "the LIST requests and watch cancellations seen by the server and the factory's reference counts are recorded, compared with the model step by step and judged by "
+                "the history specification; non-trivial = some handler received a delivery; distinct = distinct (initial contents, operations) text",
+        "trusted_base": TB_COMMON + ["simulated API server LIST/WATCH (harness/verifsim/sim.go); client-go SharedIndexInformer and reflector (modelled: cache = server contents once synced)",
+                                     "waiting is expectation-guided (until every registered handler got the event, 5 s ceiling) plus a 25 ms settle window for stray deliveries"],
+        "assumptions": ["every subscription is closed at most once and handlers are added through open subscriptions", "per-handler resync timers never fire within a scenario (periods of minutes)"],
+    },
     "C15": sync_prop(C15T, ["hook-customize", "related-selected"],
                      "non-trivial = the customize hook was called in the sync, or (event stream) the related object is selected by some parent's rules" + RULE_EVENTS,
                      ["hook", "outcome", "events"], extra_streams=[events("composite", 600, 6000, ["related-selected", "related-add", "related-update", "related-delete"])]),
